@@ -267,6 +267,33 @@ pub fn run_fresh(cache: &Path, scratch: &Path, prog_file: &Path, from: usize, to
     read_outs(out)
 }
 
+/// Like `run_fresh`, as another (unprivileged) user: `setpriv --reuid --regid --clear-groups`.
+/// `Ok(None)` when the identity cannot be changed here.
+pub fn run_fresh_as(uid: u32, cache: &Path, scratch: &Path, prog_file: &Path, from: usize, to: usize, out: &Path) -> Result<Option<Vec<(usize, crate::ops::Out, u128, u128)>>, String> {
+    use std::os::unix::fs::PermissionsExt;
+    // the driver creates / truncates its output file: it must be allowed to
+    std::fs::write(out, b"").map_err(|e| format!("INFRA: {e}"))?;
+    let _ = std::fs::set_permissions(out, std::fs::Permissions::from_mode(0o666));
+    let mut argv = driver_cmd(cache, scratch, prog_file, from, to, out);
+    argv.pop();
+    let probe = Command::new("setpriv").args([&format!("--reuid={uid}"), &format!("--regid={uid}"), "--clear-groups", "true"]).stdin(Stdio::null()).stdout(Stdio::null()).stderr(Stdio::null()).status();
+    if !probe.map(|s| s.success()).unwrap_or(false) {
+        return Ok(None);
+    }
+    let o = Command::new("setpriv")
+        .args([&format!("--reuid={uid}"), &format!("--regid={uid}"), "--clear-groups", "--"])
+        .args(&argv)
+        .stdin(Stdio::null())
+        .stdout(Stdio::null())
+        .stderr(Stdio::piped())
+        .output()
+        .map_err(|e| format!("INFRA: cannot run setpriv: {e}"))?;
+    if !o.status.success() {
+        return Err(format!("driver process (uid {uid}) ended abnormally: {:?} {}", o.status, String::from_utf8_lossy(&o.stderr)));
+    }
+    read_outs(out).map(Some)
+}
+
 pub fn read_outs(out: &Path) -> Result<Vec<(usize, crate::ops::Out, u128, u128)>, String> {
     let text = std::fs::read_to_string(out).unwrap_or_default();
     let mut v = Vec::new();
